@@ -23,7 +23,9 @@ inductive Value where
   | null
   | bool (b : Bool)
   | int (i : Int)
-  | num (q : Rat)          -- a Python float, carried as the exact decimal rational of its `repr`
+  | num (q : Rat)          -- a finite Python float, carried as the exact decimal rational of its `repr`
+  | nan                    -- `float('nan')` / YAML `.nan`: "not a number" is an explicit value
+  | inf (neg : Bool)       -- `float('inf')` / `float('-inf')`
   | str (s : String)
   | list (l : List Value)
 
@@ -148,15 +150,48 @@ inductive Rule where
   | devices   -- int >= 0 | list of ints >= 0 | "auto"
   | oneOf (l : List String)
 
+/-- extended reals: what a Python number is for the purpose of `<`, `<=` -/
+inductive Ext where
+  | fin (q : Rat)
+  | pinf
+  | ninf
+  | nan
+deriving DecidableEq
+
+/-- IEEE / Python `a <= b`: every comparison with NaN is `False` -/
+def Ext.le : Ext → Ext → Bool
+  | .nan, _ => false
+  | _, .nan => false
+  | .ninf, _ => true
+  | _, .pinf => true
+  | .fin a, .fin b => decide (a ≤ b)
+  | _, _ => false
+
+/-- IEEE / Python `a < b` -/
+def Ext.lt : Ext → Ext → Bool
+  | .nan, _ => false
+  | _, .nan => false
+  | .ninf, .ninf => false
+  | .ninf, _ => true
+  | .pinf, _ => false
+  | _, .pinf => true
+  | .fin a, .fin b => decide (a < b)
+  | _, _ => false
+
 /-- numeric reading of a scalar the way Python compares it (`True == 1`) -/
-def Value.asRat? : Value → Option Rat
-  | .int i => some (i : Rat)
-  | .num q => some q
-  | .bool b => some (if b then 1 else 0)
+def Value.asExt? : Value → Option Ext
+  | .int i => some (.fin (i : Rat))
+  | .num q => some (.fin q)
+  | .bool b => some (.fin (if b then 1 else 0))
+  | .nan => some .nan
+  | .inf false => some .pinf
+  | .inf true => some .ninf
   | _ => none
 
+/-- `isinstance(v, float) and v >= 0` -/
 def Value.isNonnegFloat : Value → Bool
   | .num q => decide (0 ≤ q)
+  | .inf neg => !neg
   | _ => false
 
 def Value.isNonnegInt : Value → Bool
@@ -172,17 +207,17 @@ def Rule.check (r : Rule) (c : Cfg) : Except String Unit :=
     | _ => .error "TypeError"
   | .leaf v =>
     match r with
-    | .prob => match v.asRat? with
-      | some q => if 0 ≤ q ∧ q ≤ 1 then .ok () else .error "ValueError"
+    | .prob => match v.asExt? with
+      | some x => if Ext.le (.fin 0) x && Ext.le x (.fin 1) then .ok () else .error "ValueError"
       | none => .error "TypeError"
-    | .ge0 => match v.asRat? with
-      | some q => if 0 ≤ q then .ok () else .error "ValueError"
+    | .ge0 => match v.asExt? with
+      | some x => if Ext.le (.fin 0) x then .ok () else .error "ValueError"
       | none => .error "TypeError"
-    | .le1 => match v.asRat? with
-      | some q => if q ≤ 1 then .ok () else .error "ValueError"
+    | .le1 => match v.asExt? with
+      | some x => if Ext.le x (.fin 1) then .ok () else .error "ValueError"
       | none => .error "TypeError"
-    | .gt0 => match v.asRat? with
-      | some q => if 0 < q then .ok () else .error "ValueError"
+    | .gt0 => match v.asExt? with
+      | some x => if Ext.lt (.fin 0) x then .ok () else .error "ValueError"
       | none => .error "TypeError"
     | .floats =>
       if v.isNonnegFloat then .ok ()
@@ -597,6 +632,8 @@ def truthy : Cfg → Bool
   | .leaf .null => false
   | .leaf (.int i) => i ≠ 0
   | .leaf (.num q) => q ≠ 0
+  | .leaf .nan => true
+  | .leaf (.inf _) => true
   | .leaf (.str s) => s ≠ ""
   | .leaf (.list l) => !l.isEmpty
   | .node kvs => !kvs.isEmpty
